@@ -1,8 +1,11 @@
 #!/bin/bash
 # usage: with_mutation.sh <file-in-repo> <old> <new> -- <command...>
-# Applies a one-shot textual mutation to /repo, runs the command, restores /repo. Development aid only.
+# Applies a one-shot textual mutation to one file of /repo, runs the command, restores that file from a
+# backup copy (uncommitted work in /repo is preserved). Development aid only.
 f="$1"; old="$2"; new="$3"; shift 4
-python3 - "$f" "$old" "$new" <<'PY' || exit 9
+bak=$(mktemp /tmp/mutbak.XXXXXX)
+cp "/repo/$f" "$bak"
+python3 - "$f" "$old" "$new" <<'PY' || { cp "$bak" "/repo/$f"; rm -f "$bak"; exit 9; }
 import sys
 f,old,new=sys.argv[1:4]
 p="/repo/"+f; s=open(p).read()
@@ -10,5 +13,5 @@ assert s.count(old)>=1, "pattern not found: "+old
 open(p,"w").write(s.replace(old,new,1))
 PY
 "$@"; rc=$?
-git -C /repo checkout -- . 
+cp "$bak" "/repo/$f"; rm -f "$bak"
 exit $rc
